@@ -74,6 +74,20 @@ func parserCases(c *core.Ctx, unit int, filter func(lib.Parser) bool, fn func(pc
 			cs := gen.WellFormed(p.Kind, p.Arg, r)
 			fn(pcase{p: p, in: cs.Bytes, class: "wellformed", shape: cs.Shape})
 		})
+		if _, ok := gen.Sized(p.Kind, p.Arg, core.NewRand(1, "sized-probe")); ok {
+			// the variable-length part at sizes between the usual few hundred bytes and the maximum
+			c.Job("sized/"+p.ID(), n/8+len(gen.SizeLadder), func(i int, r *core.Rand) {
+				cs, ok := gen.Sized(p.Kind, p.Arg, r)
+				if !ok {
+					return
+				}
+				fn(pcase{p: p, in: cs.Bytes, class: "sized", shape: cs.Shape})
+				if i%4 == 0 {
+					m, kind := gen.Mutate(r, cs, nil)
+					fn(pcase{p: p, in: m, class: "mutated:sized+" + kind, shape: cs.Shape, base: cs.Bytes})
+				}
+			})
+		}
 		c.Job("mut/"+p.ID(), n*2, func(i int, r *core.Rand) {
 			cs := gen.WellFormed(p.Kind, p.Arg, r)
 			other := gen.WellFormed(p.Kind, p.Arg, r)
